@@ -7,7 +7,9 @@ notes = sys.argv[7] if len(sys.argv) > 7 else ''
 src = '/tmp/seed/%s.out' % sid
 dst = '/verif/seeded/%s' % name
 os.makedirs(dst, exist_ok=True)
-for f in os.listdir(src):
+for f in (os.listdir(src) if os.path.isdir(src) else []):
+    if os.path.isdir(os.path.join(src, f)) or f.startswith('FOREIGN'):
+        continue
     if f.endswith('.log') or f.startswith('run_') or f.startswith('full_suite'):
         continue
     shutil.copy(os.path.join(src, f), os.path.join(dst, f))
